@@ -417,6 +417,54 @@ def deadlines(chk):
         shutil.rmtree(wd, ignore_errors=True)
 
 
+def alert_cases():
+    nocid = {"cidC": -1, "cidS": -1}
+    cases = []
+    for ver, sc in (("12", dict(ver="12", helloVerify=False, **nocid)), ("13", dict(ver="13", helloVerify=False, curvesC=[29], curvesS=[29], **nocid))):
+        for side in "cs":
+            for unread in (0, 1):
+                for al in ("close_notify", "fatal"):
+                    cases.append({"name": "%s/%s/unread%d/%s" % (ver, side, unread, al), "scen": sc, "side": side, "unread": unread, "alert": al})
+    return cases
+
+
+def run_alerts(cases):
+    wd = vlib.scratch("c16al")
+    try:
+        inp, out = os.path.join(wd, "in"), os.path.join(wd, "out")
+        json.dump(cases, open(inp, "w"))
+        rc, txt = vlib.run_test(vlib.build("root"), "TestVerifC16Alerts", {"VERIF_IN": inp, "VERIF_OUT": out}, timeout=600)
+        if rc != 0 or not os.path.exists(out):
+            raise vlib.Inconclusive("alert harness failed: " + txt[-1500:])
+        return vlib.read_ndjson(out)
+    finally:
+        shutil.rmtree(wd, ignore_errors=True)
+
+
+def alerts(chk):
+    """The peer's close_notify / fatal alert arrives while the application is not in Read and at most one datagram is unread:
+    the connection closes all the same (Write fails, Read drains and ends, Close returns)."""
+    cases = alert_cases()
+    rows = run_alerts(cases)
+    bad = []
+    for c, r in zip(cases, rows):
+        if r.get("lab"):
+            raise vlib.Inconclusive("alert case %s could not run: %s" % (c["name"], r["lab"]))
+        chk.evaluated(key="alert:" + c["name"])
+        chk.distinct.add("alert:" + c["name"])
+        if r.get("violations"):
+            bad.append(c)
+    confirmed = []
+    for c in bad:   # timing-sensitive: a failing case is run alone twice more before it counts
+        rr = [run_alerts([c])[0] for _ in range(2)]
+        if all(x.get("violations") for x in rr):
+            confirmed.append((c, rr[-1]))
+    for c, r in confirmed:
+        chk.violation({"kind": "alert-does-not-close", "what": r["violations"][0], "alert_case": c})
+    chk.parts["alerts"] = {"cases": len(cases), "first_pass_failures": len(bad), "confirmed": len(confirmed)}
+    chk.traces(len(cases))
+
+
 def run(chk):
     import time
     t0 = time.time()
@@ -436,6 +484,7 @@ def run(chk):
     stress(chk)
     vlib.log("[c16] stress done at %.0fs" % (time.time() - t0))
     deadlines(chk)
+    alerts(chk)
     chk.coverage["rule"] = ("schedules = distinct controllable-action sequences (user calls, peer datagrams, gate passages) of the TLC edge "
                             "scripts of 13 Lifecycle generation configs that contain a Close / close_notify / fatal alert / deadline, longest "
                             "first then sampled by seed; each is replayed for DTLS 1.2 and 1.3, client and server as endpoint under test, and "
@@ -455,6 +504,11 @@ def run(chk):
 
 def replay(chk, path):
     facts = json.load(open(path))
+    if "alert_case" in facts:
+        chk.evaluated(key="replay")
+        if run_alerts([facts["alert_case"]])[0].get("violations"):
+            chk.violation(dict(facts, replayed=True), replay=path)
+        return
     if "deadline_case" in facts:
         wd = vlib.scratch("c16dlr")
         try:
